@@ -130,6 +130,8 @@ var QueryCalls int
 //@ ensures[ans] err == nil ==> forall(k, 0, len(inputs), Ans(inputs[k], results[k]))
 //@ ensures[no-partial] err != nil ==> results == nil
 //@ ensures[fresh] err == nil ==> fresh(results)
+// C09: a reply element without errors carries data: 'missing data' is a failure signal, not an empty answer (B33)
+//@ ensures[data-present] err == nil ==> forall(k, 0, len(inputs), results[k] != nil) @props C09
 // (also C11: the reducer of Query drops an error that is an empty list, so a chunk that fails with one would be lost and
 // the caller handed partial results: a failing chunk must fail with a non-vacuous error)
 //@ ensures[errkind] gqlerrors.nonvacuous(err) @props C09 C11
@@ -140,6 +142,9 @@ var QueryCalls int
 //@ loop 0 invariant[files] forall(k, 0, it, FileReq(inputs[k]) ==> Ans(inputs[k], results[k]))
 //@ loop 0 invariant[cover] forall(k, 0, it, !FileReq(inputs[k]) ==> exists(j, 0, len(toFetchIndexes), toFetchIndexes[j] == k)) @using cover, lens, own
 //@ loop 1 invariant[done] forall(j, 0, it, Ans(inputs[toFetchIndexes[j]], results[toFetchIndexes[j]]))
+//@ loop 0 invariant[files-data] forall(k, 0, it, FileReq(inputs[k]) ==> results[k] != nil)
+//@ loop 1 invariant[files-data] forall(k, 0, len(inputs), FileReq(inputs[k]) ==> results[k] != nil)
+//@ loop 1 invariant[done-data] forall(j, 0, it, results[toFetchIndexes[j]] != nil)
 //@ loop 1 invariant[files] forall(k, 0, len(inputs), FileReq(inputs[k]) ==> Ans(inputs[k], results[k]))
 // C10/C09: a reply that carries errors ends the batch with those errors, whatever else it carries
 //@ loop 1 invariant[errors-reported] forall(j, 0, it, len(resps[j].Errors) == 0) @props C10 C09 C11
